@@ -46,78 +46,85 @@ def oldRoot (c : HashCtx) (h : Nat) (p : List Bool) (t : T Trie.Bytes) : Trie.By
   | .empty => []
   | t => hashT c h p t
 
+/-- What is recorded for a batch root: height, prefix, new subtree ↦ the value `commit` will write.
+The trie records `batchVal c`; the driver, which only compares keys, records nothing. -/
+abbrev ValFn := Nat → List Bool → T Trie.Bytes → Trie.Bytes
+
+def batchVal (c : HashCtx) : ValFn := fun h p t => serialize (batchOf c h p t)
+
 /-- `storeNode(batch, h, oldRoot, height)` for the new subtree `new` at a batch root -/
-def storeNodeU (c : HashCtx) (un : UN) (h : Nat) (p : List Bool) (new : T Trie.Bytes) (old : Trie.Bytes) : UN :=
+def storeNodeU (c : HashCtx) (val : ValFn) (un : UN) (h : Nat) (p : List Bool) (new : T Trie.Bytes) (old : Trie.Bytes) : UN :=
   let k := hashT c h p new
-  let un1 := setU un k (serialize (batchOf c h p new))
+  let un1 := setU un k (val h p new)
   if !old.isEmpty && k == old then un1 else delU un1 old
 
 abbrev ResU := (T Trie.Bytes × Bool) × UN
 
 /-- `interiorHash` -/
-def interiorU (c : HashCtx) (h : Nat) (p : List Bool) (old : Trie.Bytes) (l r : T Trie.Bytes) (un : UN) : ResU :=
-  ((.node l r, false), if h % 4 = 0 then storeNodeU c un h p (.node l r) old else un)
+def interiorU (c : HashCtx) (val : ValFn) (h : Nat) (p : List Bool) (old : Trie.Bytes) (l r : T Trie.Bytes) (un : UN) : ResU :=
+  ((.node l r, false), if h % 4 = 0 then storeNodeU c val un h p (.node l r) old else un)
 
 /-- `moveUpShortcut`: the child `leaf k v` on side `b` moves up to height `h` -/
-def shortcutUpU (c : HashCtx) (h : Nat) (p : List Bool) (old : Trie.Bytes) (b : Bool) (k : List Bool) (v : Trie.Bytes)
+def shortcutUpU (c : HashCtx) (val : ValFn) (h : Nat) (p : List Bool) (old : Trie.Bytes) (b : Bool) (k : List Bool) (v : Trie.Bytes)
     (un : UN) : ResU :=
   ((.leaf (b :: k) v, true),
-    if h % 4 = 0 then storeNodeU c un h p (.leaf (b :: k) v) old
+    if h % 4 = 0 then storeNodeU c val un h p (.leaf (b :: k) v) old
     else if (h - 1) % 4 = 0 then delU un (hashT c (h - 1) (p ++ [b]) (.leaf k v))
     else un)
 
 /-- `maybeMoveUpShortcut`, then `interiorHash` when it declines (the tree part is `Trie.moveUp`) -/
-def moveUpU (c : HashCtx) (h : Nat) (p : List Bool) (old : Trie.Bytes) (l r : T Trie.Bytes) (un : UN) : ResU :=
+def moveUpU (c : HashCtx) (val : ValFn) (h : Nat) (p : List Bool) (old : Trie.Bytes) (l r : T Trie.Bytes) (un : UN) : ResU :=
   match l, r with
   | .empty, .empty => ((.empty, true), if h % 4 = 0 then delU un old else un)
-  | .empty, .leaf k v => shortcutUpU c h p old true k v un
-  | .leaf k v, .empty => shortcutUpU c h p old false k v un
-  | l, r => interiorU c h p old l r un
+  | .empty, .leaf k v => shortcutUpU c val h p old true k v un
+  | .leaf k v, .empty => shortcutUpU c val h p old false k v un
+  | l, r => interiorU c val h p old l r un
 
 /-- `updateRight` / `updateLeft` / `updateParallel` (left before right); `upd b` is the recursive call on child `b` -/
-def splitCoreU (c : HashCtx) (h : Nat) (p : List Bool) (old : Trie.Bytes)
+def splitCoreU (c : HashCtx) (val : ValFn) (h : Nat) (p : List Bool) (old : Trie.Bytes)
     (upd : Bool → T Trie.Bytes → List (KV Trie.Bytes) → UN → ResU)
     (l r : T Trie.Bytes) (lk rk : List (KV Trie.Bytes)) (un : UN) : ResU :=
   match lk, rk with
   | [], _ :: _ =>
     let ((r', d), un1) := upd true r (tails rk) un
-    if d then moveUpU c h p old l r' un1 else interiorU c h p old l r' un1
+    if d then moveUpU c val h p old l r' un1 else interiorU c val h p old l r' un1
   | _ :: _, [] =>
     let ((l', d), un1) := upd false l (tails lk) un
-    if d then moveUpU c h p old l' r un1 else interiorU c h p old l' r un1
+    if d then moveUpU c val h p old l' r un1 else interiorU c val h p old l' r un1
   | _, _ =>
     let ((l', dl), un1) := upd false l (tails lk) un
     let ((r', dr), un2) := upd true r (tails rk) un1
-    if dl || dr then moveUpU c h p old l' r' un2 else interiorU c h p old l' r' un2
+    if dl || dr then moveUpU c val h p old l' r' un2 else interiorU c val h p old l' r' un2
 
 /-- the part of `Trie.update` after the node is loaded (`Trie.split`) -/
-def splitU (c : HashCtx) (h : Nat) (p : List Bool) (old : Trie.Bytes)
+def splitU (c : HashCtx) (val : ValFn) (h : Nat) (p : List Bool) (old : Trie.Bytes)
     (upd : Bool → T Trie.Bytes → List (KV Trie.Bytes) → UN → ResU)
     (l r : T Trie.Bytes) (kvs : List (KV Trie.Bytes)) (un : UN) : ResU :=
   match l, r, kvs with
   | .empty, .empty, [(k, some v)] =>
-    ((.leaf k v, false), if h % 4 = 0 then storeNodeU c un h p (.leaf k v) old else un)
+    ((.leaf k v, false), if h % 4 = 0 then storeNodeU c val un h p (.leaf k v) old else un)
   | .empty, .empty, [(_, none)] => ((.empty, true), un)
   | _, _, _ =>
-    splitCoreU c h p old upd l r (kvs.takeWhile fun kv => !headBit kv.1) (kvs.dropWhile fun kv => !headBit kv.1) un
+    splitCoreU c val h p old upd l r (kvs.takeWhile fun kv => !headBit kv.1) (kvs.dropWhile fun kv => !headBit kv.1) un
 
 /-- **`Trie.update` with `updatedNodes` threaded through**: height, path prefix, old subtree, batch. -/
-def updU (c : HashCtx) : Nat → List Bool → T Trie.Bytes → List (KV Trie.Bytes) → UN → ResU
+def updU (c : HashCtx) (val : ValFn) : Nat → List Bool → T Trie.Bytes → List (KV Trie.Bytes) → UN → ResU
   | 0, p, t, kvs, un =>
     match kvs with
-    | (k, some v) :: _ => ((.leaf k v, false), storeNodeU c un 0 p (.leaf k v) (oldRoot c 0 p t))
+    | (k, some v) :: _ => ((.leaf k v, false), storeNodeU c val un 0 p (.leaf k v) (oldRoot c 0 p t))
     | (_, none) :: _ => ((.empty, true), delU un (oldRoot c 0 p t))
     | [] => ((.empty, true), un)
   | h + 1, p, t, kvs, un =>
-    let old := oldRoot c (h + 1) p t
+    -- `root` is only looked at where a batch starts (`iBatch == 0`)
+    let old := if (h + 1) % 4 = 0 then oldRoot c (h + 1) p t else []
     match t with
     | .leaf sk sv =>
       let kvs' := addShortcut kvs sk sv
       let un1 := if (h + 1) % 4 = 0 then delU un old else un
       if kvs'.isEmpty then ((.empty, true), un1)
-      else splitU c (h + 1) p old (fun b => updU c h (p ++ [b])) .empty .empty kvs' un1
-    | .node l r => splitU c (h + 1) p old (fun b => updU c h (p ++ [b])) l r kvs un
-    | .empty => splitU c (h + 1) p old (fun b => updU c h (p ++ [b])) .empty .empty kvs un
+      else splitU c val (h + 1) p old (fun b => updU c val h (p ++ [b])) .empty .empty kvs' un1
+    | .node l r => splitU c val (h + 1) p old (fun b => updU c val h (p ++ [b])) l r kvs un
+    | .empty => splitU c val (h + 1) p old (fun b => updU c val h (p ++ [b])) .empty .empty kvs un
 
 /-- the batch roots of a tree of height `4 * n`: path from the root and hash -/
 def batchRoots (c : HashCtx) : Nat → List Bool → T Trie.Bytes → List (List Bool × Trie.Bytes)
@@ -128,6 +135,135 @@ def batchRoots (c : HashCtx) : Nat → List Bool → T Trie.Bytes → List (List
       (pathsN 4).flatMap fun q =>
         match descend t q with
         | some s => batchRoots c n (p ++ q) s
+        | none => []
+
+/-! ### The same with the hashes kept in the tree
+
+`updU` recomputes the hash of a subtree wherever the Go code merely reads the reference stored in the
+parent's batch (`root`, `lnode`, `rnode`) or passes on the hash it has just computed (`mresult.update`).
+`TH` keeps that hash at every node, `updUH` is `updU` on such trees: one hash evaluation per node the
+Go code hashes. (Lemmas/TrieStoreUpdH.lean: on a correctly annotated tree `updUH` and `updU` agree.) -/
+
+/-- a tree with the hash of every non-empty subtree cached at its root -/
+inductive TH where
+  | empty : TH
+  | leaf (k : List Bool) (v : Trie.Bytes) (hs : Trie.Bytes) : TH
+  | node (l r : TH) (hs : Trie.Bytes) : TH
+
+namespace TH
+
+def erase : TH → T Trie.Bytes
+  | .empty => .empty
+  | .leaf k v _ => .leaf k v
+  | .node l r _ => .node l.erase r.erase
+
+/-- the hash by which a parent refers to the subtree (`DefaultLeaf` for an empty one) -/
+def ref : TH → Trie.Bytes
+  | .empty => defaultLeaf
+  | .leaf _ _ hs => hs
+  | .node _ _ hs => hs
+
+/-- the bare hash as an old root (`[]` = nil) -/
+def root : TH → Trie.Bytes
+  | .empty => []
+  | .leaf _ _ hs => hs
+  | .node _ _ hs => hs
+
+end TH
+
+/-- `leafHash` -/
+def mkLeaf (c : HashCtx) (h : Nat) (p k : List Bool) (v : Trie.Bytes) : TH :=
+  .leaf k v (c.H (c.enc (p ++ k) ++ v ++ [byteOf h]))
+
+/-- `interiorHash` -/
+def mkNode (c : HashCtx) (l r : TH) : TH := .node l r (c.H (l.ref ++ r.ref))
+
+abbrev ValFnH := Nat → List Bool → TH → Trie.Bytes
+
+def storeNodeUH (val : ValFnH) (un : UN) (h : Nat) (p : List Bool) (new : TH) (old : Trie.Bytes) : UN :=
+  let k := new.root
+  let un1 := setU un k (val h p new)
+  if !old.isEmpty && k == old then un1 else delU un1 old
+
+abbrev ResUH := (TH × Bool) × UN
+
+def interiorUH (c : HashCtx) (val : ValFnH) (h : Nat) (p : List Bool) (old : Trie.Bytes) (l r : TH) (un : UN) : ResUH :=
+  let new := mkNode c l r
+  ((new, false), if h % 4 = 0 then storeNodeUH val un h p new old else un)
+
+def shortcutUpUH (c : HashCtx) (val : ValFnH) (h : Nat) (p : List Bool) (old : Trie.Bytes) (b : Bool) (k : List Bool)
+    (v childHash : Trie.Bytes) (un : UN) : ResUH :=
+  let new := mkLeaf c h p (b :: k) v
+  ((new, true),
+    if h % 4 = 0 then storeNodeUH val un h p new old
+    else if (h - 1) % 4 = 0 then delU un childHash
+    else un)
+
+def moveUpUH (c : HashCtx) (val : ValFnH) (h : Nat) (p : List Bool) (old : Trie.Bytes) (l r : TH) (un : UN) : ResUH :=
+  match l, r with
+  | .empty, .empty => ((.empty, true), if h % 4 = 0 then delU un old else un)
+  | .empty, .leaf k v hs => shortcutUpUH c val h p old true k v hs un
+  | .leaf k v hs, .empty => shortcutUpUH c val h p old false k v hs un
+  | l, r => interiorUH c val h p old l r un
+
+def splitCoreUH (c : HashCtx) (val : ValFnH) (h : Nat) (p : List Bool) (old : Trie.Bytes)
+    (upd : Bool → TH → List (KV Trie.Bytes) → UN → ResUH)
+    (l r : TH) (lk rk : List (KV Trie.Bytes)) (un : UN) : ResUH :=
+  match lk, rk with
+  | [], _ :: _ =>
+    let ((r', d), un1) := upd true r (tails rk) un
+    if d then moveUpUH c val h p old l r' un1 else interiorUH c val h p old l r' un1
+  | _ :: _, [] =>
+    let ((l', d), un1) := upd false l (tails lk) un
+    if d then moveUpUH c val h p old l' r un1 else interiorUH c val h p old l' r un1
+  | _, _ =>
+    let ((l', dl), un1) := upd false l (tails lk) un
+    let ((r', dr), un2) := upd true r (tails rk) un1
+    if dl || dr then moveUpUH c val h p old l' r' un2 else interiorUH c val h p old l' r' un2
+
+def splitUH (c : HashCtx) (val : ValFnH) (h : Nat) (p : List Bool) (old : Trie.Bytes)
+    (upd : Bool → TH → List (KV Trie.Bytes) → UN → ResUH)
+    (l r : TH) (kvs : List (KV Trie.Bytes)) (un : UN) : ResUH :=
+  match l, r, kvs with
+  | .empty, .empty, [(k, some v)] =>
+    let new := mkLeaf c h p k v
+    ((new, false), if h % 4 = 0 then storeNodeUH val un h p new old else un)
+  | .empty, .empty, [(_, none)] => ((.empty, true), un)
+  | _, _, _ =>
+    splitCoreUH c val h p old upd l r (kvs.takeWhile fun kv => !headBit kv.1) (kvs.dropWhile fun kv => !headBit kv.1) un
+
+/-- `updU` on hash-annotated trees -/
+def updUH (c : HashCtx) (val : ValFnH) : Nat → List Bool → TH → List (KV Trie.Bytes) → UN → ResUH
+  | 0, p, t, kvs, un =>
+    match kvs with
+    | (k, some v) :: _ => let new := mkLeaf c 0 p k v; ((new, false), storeNodeUH val un 0 p new t.root)
+    | (_, none) :: _ => ((.empty, true), delU un t.root)
+    | [] => ((.empty, true), un)
+  | h + 1, p, t, kvs, un =>
+    let old := if (h + 1) % 4 = 0 then t.root else []
+    match t with
+    | .leaf sk sv _ =>
+      let kvs' := addShortcut kvs sk sv
+      let un1 := if (h + 1) % 4 = 0 then delU un old else un
+      if kvs'.isEmpty then ((.empty, true), un1)
+      else splitUH c val (h + 1) p old (fun b => updUH c val h (p ++ [b])) .empty .empty kvs' un1
+    | .node l r _ => splitUH c val (h + 1) p old (fun b => updUH c val h (p ++ [b])) l r kvs un
+    | .empty => splitUH c val (h + 1) p old (fun b => updUH c val h (p ++ [b])) .empty .empty kvs un
+
+def descendH : TH → List Bool → Option TH
+  | t, [] => some t
+  | .node l r _, b :: bs => descendH (if b then r else l) bs
+  | _, _ :: _ => none
+
+/-- `batchRoots` on an annotated tree: path and cached hash of every batch root -/
+def batchRootsH : Nat → List Bool → TH → List (List Bool × Trie.Bytes)
+  | _, _, .empty => []
+  | 0, p, t => [(p, t.root)]
+  | n + 1, p, t =>
+    (p, t.root) ::
+      (pathsN 4).flatMap fun q =>
+        match descendH t q with
+        | some s => batchRootsH n (p ++ q) s
         | none => []
 
 end Aergo.TrieStore
